@@ -28,6 +28,8 @@ func main() {
 	switch os.Args[1] {
 	case "dev":
 		devCmd(os.Args[2:])
+	case "audit":
+		os.Exit(auditCmd())
 	case "harness":
 		// maintainer aid: print the raw output of a bounded API harness (harness <prop> [<ecosystem>])
 		w, err := loadWorld(repoDir)
